@@ -330,6 +330,7 @@ def butter_real(ctx):
                        detail=None if okn else (r if r[0] != 'ok' else {'max_deviation': float(np.max(np.abs(r[1] - want))), 'peak': float(np.max(np.abs(xr)))}))
     n_cases = 200 if ctx.tier == 'quick' else 1500
     prev = None
+    prev_sig = None
     for i in range(n_cases):
         # also steps whose reciprocal is not an integer (+ source hints: dt and 1/dt at / around every new float constant)
         dt = rng.choice([0.01, 0.005, 0.02, 0.03, 0.015, 0.04, 0.0125] + [c for c in _HV if 0.002 <= c <= 0.05][:8])
@@ -351,6 +352,9 @@ def butter_real(ctx):
             probes = [min(fc * r, 0.9 * nyq) for r in (0.2, 0.5, 0.8, 1.0, 1.25, 2.0, 3.0)]
             flow = fc
             ctx.hist('gain/derived-from-previous-call')
+            derived = True
+        else:
+            derived = False
         prev = (dt, order, tuple(cut))
         mname, mval = MODES[(i // 4) % 4]
         cont = ['list', 'tuple', 'ndarray'][i % 3]
@@ -371,7 +375,15 @@ def butter_real(ctx):
         ctx.hist(f'gain/container={cont}')
         ctx.count_case(('gain', f, dt, tuple(cut), order, mname, n, ph, amp), True,
                        sample={'fn': 'Signal.butter_pass', **inputs} if i < 2 else None)
-        sig = eqsig.Signal(x, dt)
+        if derived and prev_sig is not None and prev_sig.dt == dt and rng.random() < 0.6:
+            # ... on the SAME object (given the new record through reset_values): a design remembered per object must not be reused for another type
+            sig = prev_sig
+            sig.reset_values(x)
+            ctx.hist('gain/derived-from-previous-call/same object')
+            inputs['object'] = 'the object filtered in the previous case (other filter type, same corner), record replaced by reset_values'
+        else:
+            sig = eqsig.Signal(x, dt)
+        prev_sig = sig
         res = call_impl(lambda sig=sig, co=co: sig.butter_pass(co, filter_order=order, remove_gibbs=mval))
         if res[0] != 'ok':
             ctx.oracle('C17.a cut-offs may be given as list, tuple or array: butter_pass returns', False, inputs, detail=res,
